@@ -20,6 +20,7 @@ CLAIMED = {
  "C15": ("2.C15", "Orientation maps of the interleaved frame buffer and of the sample stream against the specification's map for all 8 orientations and partly-outside copy regions, equality of stream and buffer, and the integer output conversions (rounding, clamping, 8/16-bit fast paths) for every sample value; on 3x2 pixels."),
  "C17": ("2.C17", "Units of JPEG reconstruction: MSB-first bit packing with 0xFF byte stuffing across buffer flushes equals the T.81 rule for all bit values; canonical Huffman code assignment and lookup failure; APP marker records of hostile reconstruction data are rejected or give total size queries. Byte-exact whole files are outside."),
  "C18": ("2.C18", "Units of ICC decoding against ISO/IEC 18181-1 Annex E: context function (all inputs), header prediction table (all positions and contents), 2- and 4-way shuffles (lengths 1..9; ragged 4-way lengths only where the reading is unambiguous), header-only profiles through decode_icc. Command interpreter beyond the header is outside."),
+ "C09": ("2.C09", "Container level only: the one-step harnesses of C10 are quantified over every buffer length (1..=20 bytes offered from every valid parser state), so a step on a short chunk is specified for every cut of the next bytes: it either reports need-more-data with the bytes it consumed or the same event the long chunk gives up to the cut (finding F01 was exactly a cut-dependent result). Frame::feed_bytes and the JxlImage carry-over are not encoded."),
  "C10": ("2.C10", "One-step functional equivalence of the real container state machine with a reference semantics written from the format rules, from every valid parser state (inductive: successor states are shown valid), for every buffer up to 20 bytes of any length: events, payload extents, consumed bytes, successor state, and rejection of every ill-formed layout."),
  "C11": ("2.C11", "For every buffer within bounds and every cut, reads on the prefix equal the reads on the full buffer or are classified as unexpected EOF."),
  "C13": ("2.C13", "Inductive step of the allocation accounting from an arbitrary tracker state, and exact charge/release of AlignedGrid allocations under every limit."),
@@ -28,7 +29,6 @@ CLAIMED = {
 NA = {
  "C07": "quantifier is thread schedules and pool sizes; Kani/CBMC do not model threads, rayon or relaxed atomics, and no sequential unit decides schedule independence (the disjoint-partition premise is checked under C02)",
  "C08": "symbolic execution of the real render handle (state.rs / RenderedImage::blend) does not finish: every assignment to FrameRender<S> expands the drop glue of InProgress(Box<RenderCache<S>>) (LfGlobal, HfGlobal, HashMap<LfGroup>): >15 min in symex with all outcomes concrete and unwind 2 (harness kept in harness/src/c_render.rs, not compiled). The defect this property is about was found by reading and confirmed natively (finding F03, fixed).",
- "C09": "not built yet (planned: one-step commutation of the container parser and Frame::feed_bytes, DESIGN 2.C09)",
  "C16": "not built yet (planned: small DCTs bit-precise vs cosine sums, DESIGN 2.C16)",
  "C19": "not built yet (planned: integer-level facts only; transcendental curves are outside CBMC's reach, DESIGN 2.C19)",
  "C20": "quantifier is thread interleavings; Kani/CBMC do not model threads, and the sequentialised monitor obligations need the same render-handle harness as C08, whose symbolic execution does not finish (see C08).",
